@@ -1063,7 +1063,7 @@ func lookaheadBig(args []string) error {
 		fmt.Printf("deep\t%d\t%s\n", k, res)
 	}
 	in := strings.Repeat("x ", n) + "?"
-	for _, k := range []int{0, 1, participle.MaxLookahead, satAdd(participle.MaxLookahead, 50000), -1, -7} {
+	for _, k := range []int{0, 1, participle.MaxLookahead, satAdd(participle.MaxLookahead, 1), satAdd(participle.MaxLookahead, 50000), -1, -7} {
 		res := runGuardedFor(120*time.Second, func() string {
 			p, err := participle.Build[bigLA](participle.UseLookahead(k))
 			if err != nil {
@@ -1279,6 +1279,15 @@ type nodeTagged struct {
 	Kids   []*nodeTagged  `parser:"( '(' @@* ')' )?" json:"kids"`
 }
 
+// position fields declared with interface types that lexer.Position converts to
+type nodeIfacePos struct {
+	Pos    fmt.Stringer
+	EndPos any
+	Tokens []lexer.Token
+	Name   string          `@Ident`
+	Kids   []*nodeIfacePos `( "(" @@* ")" )?`
+}
+
 // only the embedded struct has them: they are the node's (promoted) fields
 type nodePromoted struct {
 	posBase
@@ -1442,6 +1451,33 @@ func posfieldsStatic(args []string) error {
 			status = "BAD"
 		}
 		fmt.Printf("%s\t%q\tplain %v; fields with foreign / empty parser tags %v\n", status, in, a, d)
+	}
+	if pi, err := participle.Build[nodeIfacePos](); err == nil {
+		var walkI func(n *nodeIfacePos, out *[]string)
+		walkI = func(n *nodeIfacePos, out *[]string) {
+			p, _ := n.Pos.(lexer.Position)
+			e, _ := n.EndPos.(lexer.Position)
+			*out = append(*out, key(p, e, n.Tokens))
+			for _, k := range n.Kids {
+				walkI(k, out)
+			}
+		}
+		for _, in := range []string{"a", "a ( b c )", " a(b(c d) e ( f ) )  "} {
+			var a, d []string
+			v1, e1 := pp.ParseString("", in)
+			v4, e4 := pi.ParseString("", in)
+			if e1 != nil || e4 != nil {
+				fmt.Printf("BAD\t%q\tparse errors %v %v\n", in, e1, e4)
+				continue
+			}
+			walkP(v1, &a)
+			walkI(v4, &d)
+			status := "OK"
+			if strings.Join(a, " ") != strings.Join(d, " ") {
+				status = "BAD"
+			}
+			fmt.Printf("%s\t%q\tplain %v; Pos / EndPos of interface types %v\n", status, in, a, d)
+		}
 	}
 	for _, in := range []string{"a", "a ( b c )", " a(b(c d) e ( f ) )  ", "x ( )"} {
 		var a, b, c []string
